@@ -150,7 +150,7 @@ class Query:
     def __init__(self, name, harness, tus=(), env=(), defs=None, unwind=None,
                  unwindset=(), flags=(), timeout=120, mem_gb=6, tier="quick",
                  params=None, group=None, expect_fail=(), cdefs=(), solver=None,
-                 leak=False, nowitness=False, objbits=None, unwind_rules=(), allow_pruned=False):
+                 leak=False, nowitness=False, objbits=None, unwind_rules=(), allow_pruned=False, concrete=False):
         self.name = name
         self.harness = harness          # relative to /verif/harness
         self.tus = list(tus)            # relative to /repo/src
@@ -175,6 +175,9 @@ class Query:
         self.unwind_rules = list(unwind_rules)
         # a query whose every path is cut by an assumption (a schedule that is not executable) is not an error
         self.allow_pruned = allow_pruned
+        # the query has no symbolic input at all (shape fully concrete): if CBMC does not finish, the same harness is
+        # executed natively (ASan/UBSan) as a last resort; a failure there is a replayed counterexample
+        self.concrete = concrete
 
 
 class Result:
@@ -389,8 +392,45 @@ class Ctx:
         res.wall = time.time() - t0
         res.rss_mb = rss
         if to:
+            # The proof pass did not finish.  A bounded-depth bug-hunting pass (no verdict
+            # if it finds nothing: unexplored paths) can still produce a counterexample,
+            # which is replayed natively before it is reported.
             res.status = "inconclusive"
             res.reason = "timeout after %ds" % q.timeout
+            so2, se2, rc2, to2, wall2, rss2 = self.run_cbmc(q, gb, ["--depth", "6000", "--stop-on-fail", "--trace"], timeout=min(180, q.timeout))
+            if not to2:
+                try:
+                    msgs2 = json.loads(so2)
+                except Exception:
+                    msgs2 = []
+                hunt = Result(q)
+                self._parse_stop_on_fail(hunt, msgs2)
+                if hunt.failed:
+                    res.failed = hunt.failed
+                    res.props = hunt.props
+                    res.nprops = len(hunt.props)
+                    res.status = "fail"
+                    res.reason += "; counterexample found by the depth-bounded pass"
+                    self._replay_from_trace(res, hunt)
+            if res.status != "fail" and q.concrete:
+                try:
+                    exe = self.native_build(q)
+                    vf = os.path.join(self.tmp, "vals-concrete-%s.txt" % re.sub(r"\W", "_", q.name))
+                    open(vf, "w").write("\n")
+                    out = run_native(exe, vf)
+                    if out.get("reproduced"):
+                        ent = ("native.concrete", "concrete execution of the harness failed: " + out.get("detail", ""), "FAILURE", "", "", "harness")
+                        res.failed = [ent]
+                        res.status = "fail"
+                        res.reason += "; failure found by concrete native execution of the (input-free) harness"
+                        rep = {"property": ent[0], "desc": ent[1], "file": "", "line": "", "function": "harness", "values": []}
+                        rep.update(out)
+                        res.replays.append(rep)
+                    elif out.get("native_rc") == 0:
+                        res.reason += "; concrete native execution passes (CBMC gave no verdict)"
+                except Exception as e:
+                    res.reason += "; native fallback failed: %s" % str(e)[-200:]
+            res.wall = time.time() - t0
             return res
         try:
             msgs = json.loads(so)
@@ -478,6 +518,41 @@ class Ctx:
             res.reason += "harness has no witness; "
         else:
             res.status = "pass"
+
+    def _parse_stop_on_fail(self, res, msgs):
+        """--stop-on-fail output: one failed property with its trace"""
+        for m in msgs:
+            if not isinstance(m, dict) or "result" not in m:
+                continue
+            for r in m["result"]:
+                desc = r.get("description", "")
+                sl = r.get("sourceLocation", {}) or {}
+                ent = (r["property"], desc, r["status"], sl.get("file", ""), sl.get("line", ""), sl.get("function", ""))
+                res.props.append(ent)
+                if r["status"] == "FAILURE" and not desc.startswith("WITNESS") and "unwind" not in r["property"]:
+                    res.failed.append(ent)
+                    res._trace = r.get("trace")
+
+    def _replay_from_trace(self, res, hunt):
+        q = res.q
+        ent = hunt.failed[0]
+        rep = {"property": ent[0], "desc": ent[1], "file": ent[3], "line": ent[4], "function": ent[5], "reproduced": False, "detail": ""}
+        res.replays.append(rep)
+        tr = getattr(hunt, "_trace", None)
+        if tr is None:
+            rep["detail"] = "no trace"
+            return
+        vals = _trace_values(tr)
+        rep["values"] = vals
+        try:
+            exe = self.native_build(q)
+        except Exception as e:
+            rep["detail"] = str(e)[-800:]
+            return
+        vf = os.path.join(self.tmp, "vals-hunt-%s.txt" % re.sub(r"\W", "_", q.name))
+        with open(vf, "w") as f:
+            f.write("\n".join(str(v) for v in vals) + "\n")
+        rep.update(run_native(exe, vf, ent[1]))
 
     # ---- replay ----------------------------------------------------------
     def native_build(self, q):
